@@ -32,15 +32,18 @@ LEVEL_TEXT = (
     "to the arithmetic combination for every nesting; the code-shaped finite difference (append a copy, then diff) is the "
     "documented matrix for append=0 and circular, lifted to every axis of an N-d array (fibre by fibre), and the TV norms are "
     "the documented sums over those differences; L2,1 over the leading axis of a stack; metric identities (mse>=0, "
-    "psnr/snr/isnr relations, rel_res definition with its zero-denominator case); losses: non-negativity, zero sets, block = "
-    "concatenation, Poisson minimum. Tie: every functional/loss/metric x parameter grid x "
+    "mse=0 iff equal, psnr/snr/isnr relations, rel_res definition with its zero-denominator case, rel_res<=2); nuclear norm on "
+    "the singular values (bounds against the Frobenius norm); ProximalAverage weights sum to one; losses: non-negativity, "
+    "SquaredL2AbsLoss<=SquaredL2Loss, block = concatenation, Poisson minimum. Tie: every functional/loss/metric x parameter grid x "
     "real/complex x plain/block compared with the model on dyadic data incl. zeros, ties at delta / radius, on-set and "
     "off-set points."
 )
 LEVEL_NOTE = (
     "Trusted: Lean kernel + Mathlib (propext, Classical.choice, Quot.sound); real-number idealisation (sums are exact on "
     "the dyadic data used, sqrt/log are tied numerically at 1e-9); jax.numpy reductions/elementwise maps as contracts; "
-    "NuclearNorm (SVD), denoiser functionals and TV prox are outside; gammaln of PoissonLoss is supplied by scipy."
+    "the SVD inside NuclearNorm is a contract (singular values supplied, tied against numpy's SVD and exact cases); denoiser "
+    "functionals and TV prox are outside; gammaln of PoissonLoss is supplied by scipy; L2,1 over an arbitrary axis subset is "
+    "proved for l2_axis=0 (default, used by IsotropicTVNorm) and tied numerically otherwise."
 )
 PROP_MODULES = ["Scico.Props.C09"]
 EXTRA_TARGETS = ["Drv.ProxCalc"]
